@@ -20,6 +20,8 @@ sys.path.insert(0, os.path.dirname(os.path.dirname(os.path.abspath(__file__))))
 import numpy as np
 import scipy.ndimage
 from common import runner, enginea
+from pysched import pysched
+import argparse, types, collections
 
 STRUCT = np.zeros((3, 3, 3), int)
 STRUCT[1, :, :] = 1
@@ -86,6 +88,12 @@ class C12(object):
         enginea.prepare_sim(ctx, import_imaged11=True)
         from ImageD11 import labelimage
         self.li = labelimage
+        with contextlib.redirect_stdout(io.StringIO()):
+            from ImageD11 import peaksearcher, ImageD11_thread
+        self.ps, self.it = peaksearcher, ImageD11_thread
+        ap = argparse.ArgumentParser()
+        peaksearcher.get_options(ap)
+        self.ps_defaults = ap
 
     def gen(self, rs, ctx):
         rnd = random.Random(rs)
@@ -96,12 +104,21 @@ class C12(object):
             ns, nf = rnd.randint(4, 32), rnd.randint(4, 32)
         cfg = enginea.draw_cfg(rnd, max_team=16)
         ostep = rnd.choice([1.0, 0.25, -0.5, 0.0, 2.5])
+        tier2 = (not big) and rnd.random() < 0.3
+        if tier2:
+            return {"entry": "peaksearch-pipeline", "tier2": True, "nfr": min(nfr, 8), "ns": min(ns, 12), "nf": min(nf, 12),
+                    "wseed": rnd.getrandbits(48), "threshold": rnd.choice([0.0, 5.0]), "omega0": 0.0, "ostep": rnd.choice([1.0, 0.25, -0.5]),
+                    "nthresh": rnd.choice([1, 2, 3]), "dark": rnd.random() < 0.4, "omega_in_header": rnd.random() < 0.6,
+                    "write2d": True, "cfg": dict(cfg, team=1),
+                    "strategy": rnd.choice(["random", "random", "pct", "rr", "rtc"]), "p_inv": rnd.choice([1, 2, 4, 16, 64]),
+                    "quantum": rnd.choice([1, 3, 10]), "pct_d": rnd.choice([1, 2, 3]), "sseed": rnd.getrandbits(48),
+                    "eager_sleep": rnd.random() < 0.35}
         return {"entry": "labelimage-history", "nfr": nfr, "ns": ns, "nf": nf, "wseed": rnd.getrandbits(48),
                 "threshold": rnd.choice([0.0, 5.0, 100.0]), "omega0": rnd.choice([0.0, -10.0, 90.5]), "ostep": ostep,
                 "write2d": rnd.random() < 0.4, "cfg": cfg}
 
     def describe(self, desc):
-        return {k: desc[k] for k in ("nfr", "ns", "nf", "wseed", "threshold", "omega0", "ostep", "write2d", "cfg")}
+        return {k: desc[k] for k in desc if k != "replay"}
 
     def scene(self, desc):
         rnd = random.Random(desc["wseed"])
@@ -116,6 +133,8 @@ class C12(object):
         return kind, M, vol, omegas
 
     def execute(self, desc, ctx):
+        if desc.get("tier2"):
+            return self.exec_pipeline(desc, ctx)
         sim = ctx.sim
         cfg = desc["cfg"]
         kind, M, vol, omegas = self.scene(desc)
@@ -158,6 +177,177 @@ class C12(object):
         return {"digest": enginea.sha(st["digest"], out.getvalue()),
                 "sig": "%s/%s/%s/%s/%s" % (enginea.sha(M, vol), thr, desc["ostep"], cfg.get("dset_cap"), cfg["team"]),
                 "nontrivial": multi > 0, "viol": viol, "measures": meas}
+
+    # ------------------------------------------------------------------ tier 2: the threaded pipeline
+    def exec_pipeline(self, desc, ctx):
+        """peaksearcher.peaksearch_driver (reader -> corrector -> one searcher per threshold, bounded queues, polling main
+        thread) under the deterministic thread scheduler; the merged-peaks file of every threshold must be byte-identical
+        to the --singleThread run of the same series, every frame must reach every searcher exactly once and in order, and
+        the driver must return within a bound of virtual time"""
+        sim = ctx.sim
+        ps, it = self.ps, self.it
+        kind, M, vol, omegas = self.scene(desc)
+        nfr, ns, nf = M.shape
+        thr0 = desc["threshold"]
+        thresholds = [thr0 + 1 + 50.0 * k for k in range(desc["nthresh"])]
+        dark = np.full((ns, nf), 1.0, np.float32) if desc["dark"] else None
+        vol_in = vol + (1.0 if desc["dark"] else 0.0)
+        enginea.apply_cfg(sim, desc["cfg"], strict=0, track_conflicts=0, step_cap=4000000000)
+        sim.begin_run()
+        d = os.path.join(ctx.scratch, "c12_%d" % os.getpid())
+        os.makedirs(d, exist_ok=True)
+
+        class Frame(object):
+            def __init__(self, k):
+                self.data = vol_in[k].copy()
+                self.header = {"Omega": float(omegas[k])} if desc["omega_in_header"] else {}
+                self.filename = "frame"
+                self.currentframe = k
+
+        def series():
+            for k in range(nfr):
+                yield Frame(k)
+
+        def options(tag, one):
+            o = self.ps_defaults.parse_args([])
+            o.format = "py"
+            o.stem = "verif_c12_series"
+            o.outfile = os.path.join(d, tag + ".spt")
+            o.thresholds = thresholds
+            o.oneThread = one
+            o.perfect = "Y"
+            o.OMEGA, o.OMEGASTEP, o.OMEGAOVERRIDE = float(omegas[0]), float(desc["ostep"]), False
+            o.killfile = None
+            return o
+
+        def install_series():
+            m = types.ModuleType("verif_c12_series")
+            m.first_image = Frame(0)
+            m.file_series_object = series()
+            sys.modules["verif_c12_series"] = m
+
+        def V(cls, detail):
+            return {"class": cls, "key": "pipeline:" + cls, "detail": detail}
+
+        viol = None
+        saved_open = ps.openimage
+        if dark is not None:
+            ps.openimage = lambda name: types.SimpleNamespace(data=dark.copy())
+        sched = None
+        try:
+            # reference: single thread, natively
+            install_series()
+            o1 = options("single", True)
+            if dark is not None:
+                o1.dark = "dark.edf"
+            with contextlib.redirect_stdout(io.StringIO()):
+                ps.peaksearch_driver(o1, [])
+            # threaded, simulated
+            install_series()
+            o2 = options("threaded", False)
+            if dark is not None:
+                o2.dark = "dark.edf"
+            sched = pysched.Sched(desc["sseed"], strategy=desc["strategy"], p_inv=desc["p_inv"], quantum=desc["quantum"],
+                                  pct_d=desc["pct_d"], pct_est=3000, step_cap=3000000, time_cap=1e5,
+                                  trace_files=[ps.__file__, it.__file__, self.li.__file__], replay=desc.get("replay"),
+                                  eager_sleep=desc.get("eager_sleep", False))
+            qshim = types.SimpleNamespace(Queue=lambda maxsize=0: pysched.SimQueue(sched, maxsize), Empty=ps.queue.Empty, Full=ps.queue.Full)
+            saved = (ps.queue, ps.time, it.ImageD11_thread.start, it.ImageD11_thread.join, it.ImageD11_thread.is_alive)
+            sthreads = {}
+
+            def t_start(self_):
+                sthreads[id(self_)] = sched.spawn(self_.run, getattr(self_, "myname", "thread"))
+
+            def t_join(self_, timeout=None):
+                return sched.join(sthreads[id(self_)], timeout)
+
+            def t_alive(self_):
+                sched.point("is_alive")
+                t = sthreads.get(id(self_))
+                return t is not None and t.state != "done"
+            it.stop_now = False
+            try:
+                ps.queue, ps.time = qshim, pysched.SimTime(sched, saved[1])
+                it.ImageD11_thread.start, it.ImageD11_thread.join, it.ImageD11_thread.is_alive = t_start, t_join, t_alive
+                with contextlib.redirect_stdout(io.StringIO()):
+                    try:
+                        sched.run(lambda: ps.peaksearch_driver(o2, []))
+                    except pysched.Deadlock as e:
+                        viol = V("deadlock", str(e)[:300])
+                    except pysched.StepCap as e:
+                        viol = V("no-progress", "the driver did not return within the step budget: %s" % e)
+            finally:
+                ps.queue, ps.time = saved[0], saved[1]
+                it.ImageD11_thread.start, it.ImageD11_thread.join, it.ImageD11_thread.is_alive = saved[2], saved[3], saved[4]
+                it.stop_now = False
+        except Exception as e:
+            if viol is None:
+                viol = V("raises", "%s: %s" % (type(e).__name__, str(e)[:200]))
+        finally:
+            ps.openimage = saved_open
+            sys.modules.pop("verif_c12_series", None)
+        st = sim.stats()
+        texts = []
+        # labelimage never closes its output files: they are flushed when the objects die.  Drop every reference the
+        # simulation still holds (thread objects keep their searcher and its labelimage alive) before reading them
+        if sched is not None:
+            for t in sched.threads:
+                t.fn = None
+                t.real = None
+            try:
+                sthreads.clear()
+            except NameError:
+                pass
+        import gc
+        gc.collect()
+        if viol is None:
+            excs = [e for e in sched.events if e[0] == "thread-exception"]
+            if excs:
+                viol = V("thread-raises", "a pipeline thread raised: %s" % (excs[0],))
+        if viol is None:
+            for t in thresholds:
+                a = open(os.path.join(d, "single_t%d.flt" % t)).read()
+                b = open(os.path.join(d, "threaded_t%d.flt" % t)).read()
+                texts.append(b)
+                if a != b:
+                    viol = V("threaded-differs", "threshold %g: the merged peaks written by the threaded pipeline differ from the "
+                                                 "single-thread run of the same frames (%d vs %d lines; strategy %s)" %
+                             (t, len(b.splitlines()), len(a.splitlines()), desc["strategy"]))
+                    break
+        if viol is None:
+            # every frame reaches every searcher exactly once and in order (recorded history of queue events)
+            gets = collections.defaultdict(list)
+            for e in sched.events:
+                if e[0] == "get" and e[2].startswith("peaksearch_one"):
+                    gets[e[2]].append(e[3])
+            want = ["frame[%d]" % k for k in range(nfr)] + ["None"]
+            if len(gets) != len(thresholds):
+                viol = V("delivery", "%d searcher threads received frames, %d thresholds" % (len(gets), len(thresholds)))
+            for name, seq in gets.items():
+                if seq != want:
+                    viol = V("delivery", "searcher %s received %s, the series is %s" % (name, seq[:12], want[:12]))
+                    break
+        if viol is None and sched.clock > 10.0 and not desc.get("eager_sleep"):
+            viol = V("liveness", "the driver returned only after %.1f virtual seconds" % sched.clock)
+        if viol is None:
+            # and the output itself is right (tier 1 oracle on the lowest threshold)
+            ref, ncomp = scipy.ndimage.label(vol > thresholds[0], STRUCT)
+            rows = [[float(x) for x in line.split()] for line in texts[0].splitlines() if line.strip() and not line.startswith("#")]
+            Mt = vol > thresholds[0]
+            viol = self.compare(rows, ref, ncomp, vol, omegas, Mt)
+            if viol is not None:
+                viol["key"] = "pipeline:" + viol["class"]
+        meas = enginea.run_measures(st, desc["cfg"])
+        meas["scene_kind"] = {kind: 1}
+        meas["pipeline_runs"] = 1
+        if sched is not None:
+            meas["py_steps"], meas["py_switches"], meas["virtual_seconds"] = sched.steps, sched.switches, sched.clock
+            meas["py_threads"] = len(sched.threads)
+            meas["py_strategy"] = {desc["strategy"]: 1}
+            meas["eager_timer_runs"] = 1 if desc.get("eager_sleep") else 0
+        return {"digest": enginea.sha(st["digest"], texts, sched.digest() if sched else None),
+                "sig": "pipe/%s/%s/%s" % (enginea.sha(M, vol), desc["nthresh"], sched.sched_sig() if sched else "-"),
+                "nontrivial": nfr >= 2, "viol": viol, "measures": meas}
 
     def compare(self, rows, ref, ncomp, vol, omegas, M):
         def V(cls, detail):
